@@ -885,6 +885,16 @@ Definition step_send_okb (g : cfg) (s : state) (o : op) : bool :=
   | _ => true
   end.
 
+(* executable form of the reference-count conservation clause (props c11_reqres_conservation_full),
+   evaluated by the driver on every model state: the stored counter of every request chunk = 1 if a
+   RequestMut / PendingResponse still holds it + the number of connections of the client that list
+   it as used (queued, held by the server, or returned but not yet reclaimed) *)
+Definition cons_count (s : state) (c : client) (id : N) : N :=
+  (if existsb (fun l => N.eqb (q_id (ln_msg l)) id) (s_loans s) || existsb (fun p => N.eqb (q_id (pn_msg p)) id) (s_pends s) then 1 else 0)
+  + lenN (filter (fun k => N.eqb (k_cl k) (cl_inst c) && view_active (k_cv k) && existsb (N.eqb id) (conn_req_used k)) (s_conns s)).
+Definition cons_okb (s : state) : bool :=
+  forallb (fun c => forallb (fun e => N.eqb (snd e) (cons_count s c (fst e))) (cl_rc c)) (s_clients s).
+
 (* read-only digest printed by the harness after every operation *)
 Definition digest_p (s : state) : list (N * bool * bool) :=
   map (fun p => (q_hid (pn_msg p), pend_connected s p, pend_has_response s p)) (s_pends s).
